@@ -28,11 +28,48 @@ class Types:
         for f in astq['functions']:
             if not f.get('self_ty') and not f.get('sites') and not f.get('nested_in'):
                 self.pure_fns.setdefault(f['name'], f)
+        # inherent methods without emission sites (value helpers of a backend struct): inlined when no rule knows them by name
+        self.pure_methods = {}
+        for f in astq['functions']:
+            if f.get('self_ty') and not f.get('trait') and not f.get('sites') and not f.get('nested_in'):
+                self.pure_methods.setdefault(f['name'].split('::')[-1], []).append(f)
         for i in astq['items']:
             if i['kind'] == 'struct':
                 self.structs[i['name']] = {f['name']: f['ty'] for f in i['fields']}
             elif i['kind'] == 'enum':
                 self.enums[i['name']] = i
+
+    def via_expansion(self, name, depth=0):
+        """A helper that is nothing but a composition of other transforms applied to its single string parameter
+        (`fn swift_property_name(x) = remove_dash(keyword_aware(x).as_ref())`) contributes those transforms, innermost first,
+        to a via chain instead of its own — unknown — name.  Anything else keeps its name."""
+        fn = self.pure_fns.get(name)
+        if fn is None or depth > 4 or fn.get('loops') or fn.get('returns'):
+            return (name,)
+        params = [p_['name'] for p_ in fn['params']]
+        if len(params) != 1:
+            return (name,)
+        chain = []
+        v = vt.unvar(fn.get('tail'))
+        while isinstance(v, dict):
+            if v.get('k') in ('ref', 'deref', 'paren'):
+                v = vt.unvar(v.get('v'))
+                continue
+            if v.get('k') == 'atom' and v.get('root') == params[0] and not v.get('path'):
+                out = ()
+                for c_ in reversed(chain):
+                    out += self.via_expansion(c_, depth + 1) if c_ in self.pure_fns and c_ != name else (c_,)
+                return out or (name,)
+            if v.get('k') == 'call':
+                subject = v.get('recv') if v.get('recv') is not None else (v['args'][0] if len(v.get('args', [])) == 1 else None)
+                if subject is None or (v.get('recv') is not None and v.get('args')):
+                    return (name,)
+                if v.get('f') not in IDENT_TRANSPARENT:
+                    chain.append(v.get('f'))
+                v = vt.unvar(subject)
+                continue
+            return (name,)
+        return (name,)
 
     def field_ty(self, owner, f):
         if owner is None:
@@ -264,12 +301,28 @@ def flatten_c(T, v, depth=0, limit=64):
                 ca = T.canon(a)
                 if ca is not None and ca[1] == [] and ca[0] in OWNERS and ca[0] != 'Id':
                     takes_object = True
+            # a helper no rule knows by name is just part of the expression that calls it: expand it (its own calls to known
+            # transforms stay visible in the via chain) — `swift_property_name(x)` ≡ remove_dash(keyword_aware(x))
             if takes_object and len(params) == len(args):
                 env = dict(zip(params, args))
                 out = []
                 for body in [fn['tail']] + [r['v'] for r in fn.get('returns', []) if r.get('v')]:
                     out.extend(flatten_c(T, subst(body, env), depth + 1, limit))
                 return [(c2, sq) for c2, sq in out if sq or True][:limit]
+        if v.get('recv') is not None and f in getattr(T, 'pure_methods', {}) and depth < 30:
+            from . import inline as _inl
+            r0 = vt.unvar(v['recv'])
+            cands = [m for m in T.pure_methods[f] if isinstance(r0, dict) and r0.get('k') == 'atom' and not r0.get('path') and (r0.get('root_ty') or '').split('<')[0] == (m.get('self_ty') or '').split('<')[0]]
+            if len(cands) == 1 and f not in _inl.ANCHORS and not cands[0].get('loops') and cands[0].get('tail') is not None:
+                fn = cands[0]
+                params = [p_['name'] for p_ in fn['params'] if p_['name'] != 'self']
+                args = v.get('args', [])
+                if len(params) == len(args):
+                    env = dict(zip(params, args))
+                    out = []
+                    for body in [fn['tail']] + [r['v'] for r in fn.get('returns', []) if r.get('v')]:
+                        out.extend(flatten_c(T, subst(body, env), depth + 1, limit))
+                    return out[:limit]
         if f in ('map', 'filter_map') and v.get('recv') is not None and v.get('args'):
             clo = vt.strip(v['args'][0])
             if isinstance(clo, dict) and clo.get('k') == 'closure' and isinstance(clo.get('body'), dict) and clo['body'].get('k') != 'big':
@@ -308,7 +361,8 @@ def flatten_c(T, v, depth=0, limit=64):
                 a1 = vt.strip(v['args'][1]) if f == 'replace' and len(v['args']) == 2 else None
                 if isinstance(a1, dict) and a1.get('k') == 'lit':
                     fname = f + '(' + repr(str(a0.get('v'))) + ' → ' + repr(str(a1.get('v'))) + ')'
-        return [(c2, [(('atom', x[1], x[2] + (fname,)) if x[0] == 'atom' else (('lit*', x[1], f) if x[0] == 'lit' else x)) for x in sq]) for c2, sq in sub]
+        fnames = T.via_expansion(fname) if v.get('recv') is None and fname == f else (fname,)
+        return [(c2, [(('atom', x[1], x[2] + fnames) if x[0] == 'atom' else (('lit*', x[1], f) if x[0] == 'lit' else x)) for x in sq]) for c2, sq in sub]
     if kk in ('elem', 'field'):
         rp = resolve_proj(v)
         if rp is not None:
